@@ -172,3 +172,26 @@ contract(T, 'BaseEphysReader.duration', is_property=True, props=['C01'], params=
     ensures=[('samples-over-rate', 'result == len(self.rows) / self.sample_rate')])
 contract(T, '_get_part_bounds', props=['C01'], params={'arrs': 'list[elem]'}, kind='assumed',
     note='numpy cumsum over a list comprehension of shapes: bounded only')
+
+# ---------------------------------------------------------------------------------------------------------
+# _get_subitems for an index list / array (increasing row numbers): the pieces split the requested rows by part, in part order,
+# each piece listing (increasing) the rows of that part relative to the part start; nothing lost, nothing invented.
+# ---------------------------------------------------------------------------------------------------------
+_PK, _PV = 'dkeys(result)', 'dvals(result)'
+contract(T, '_get_subitems', variant='array', props=['C01'],
+    params={'bounds': 'list[int]', 'item': 'arr[int]'}, let={'n': 'bounds[len(bounds) - 1]'},
+    requires=WF + [('rows-exist', 'all(0 <= item[k] and item[k] < n for k in range(len(item)))'),
+                   ('rows-increasing', 'all(item[a] < item[b] for a in range(len(item)) for b in range(a + 1, len(item)))')],
+    result='pairs[int]', locals={'out': 'pairs[int]'},
+    loops={1: {'idx': 't', 'seq': 'U', 'invariant': [
+        ('one-piece-per-part-so-far', '0 <= t and t <= len(U) and len(dkeys(out)) == t and len(dvals(out)) == t and all(dkeys(out)[j] == U[j] for j in range(t))'),
+        ('pieces-list-rows-of-their-part', 'all(all(0 <= dvals(out)[j][r] and dvals(out)[j][r] < bounds[U[j] + 1] - bounds[U[j]] and any(item[k] == bounds[U[j]] + dvals(out)[j][r] for k in range(len(item))) for r in range(len(dvals(out)[j]))) for j in range(t))'),
+        ('pieces-increasing', 'all(all(dvals(out)[j][a] < dvals(out)[j][b] for a in range(len(dvals(out)[j])) for b in range(a + 1, len(dvals(out)[j]))) for j in range(t))'),
+        ('rows-of-parts-done-are-listed', 'all(implies(any(U[j] == chunks[k] for j in range(t)), any(U[j] == chunks[k] and any(bounds[U[j]] + dvals(out)[j][r] == item[k] for r in range(len(dvals(out)[j]))) for j in range(t))) for k in range(len(item)))')]}},
+    cuts=[('out.append((chunk', 'new-piece-lists-the-rows-of-its-part', 'all(implies(chunks[k] == chunk, any(bounds[chunk] + dvals(out)[len(dvals(out)) - 1][r] == item[k] for r in range(len(dvals(out)[len(dvals(out)) - 1])))) for k in range(len(item)))'),
+          ('chunks = _find_chunks', 'every-row-lies-in-its-chunk', 'all(0 <= chunks[k] and chunks[k] + 1 < len(bounds) and bounds[chunks[k]] <= item[k] and item[k] < bounds[chunks[k] + 1] for k in range(len(item)))')],
+    using={'rows-of-parts-done-are-listed': ['rows-of-parts-done-are-listed', 'one-piece-per-part-so-far', 'new-piece-lists-the-rows-of-its-part']},
+    ensures=[('parts-in-increasing-order-and-valid', 'len(%s) == len(%s) and all(0 <= %s[j] and %s[j] + 1 < len(bounds) for j in range(len(%s))) and all(%s[a] < %s[b] for a in range(len(%s)) for b in range(a + 1, len(%s)))' % (_PK, _PV, _PK, _PK, _PK, _PK, _PK, _PK, _PK)),
+             ('pieces-list-requested-rows-of-their-part', 'all(all(0 <= %s[j][r] and %s[j][r] < bounds[%s[j] + 1] - bounds[%s[j]] and any(item[k] == bounds[%s[j]] + %s[j][r] for k in range(len(item))) for r in range(len(%s[j]))) for j in range(len(%s)))' % (_PV, _PV, _PK, _PK, _PK, _PV, _PV, _PK)),
+             ('pieces-increasing', 'all(all(%s[j][a] < %s[j][b] for a in range(len(%s[j])) for b in range(a + 1, len(%s[j]))) for j in range(len(%s)))' % (_PV, _PV, _PV, _PV, _PK)),
+             ('every-requested-row-is-in-a-piece', 'all(any(any(bounds[%s[j]] + %s[j][r] == item[k] for r in range(len(%s[j]))) for j in range(len(%s))) for k in range(len(item)))' % (_PK, _PV, _PV, _PK))])
